@@ -110,6 +110,131 @@ def protocol(rep, quick):
                         if res[-1]["status"] == "ok" else None))
 
 
+def equations(rep, quick):
+    from ..common import new_system
+    rounds = 12 if quick else 48
+    d = scratch_dir("eql")
+    try:
+        out = os.path.join(d, "t.json")
+        r = run_tlc("Scen_EqLattice", "Scen_EqLattice.cfg", workers=1, timeout=900, env={"OUT": out, "ROUNDS": str(rounds)})
+        rep.add_tlc(r, "Scen_EqLattice (argument lattice)")
+        if not os.path.exists(out):
+            rep.machinery("lattice enumeration failed", r["out"][-1000:])
+            return
+        table = json.load(open(out))["table"]
+    finally:
+        shutil.rmtree(d, ignore_errors=True)
+    b1 = run_tlc("EqBinding", "MC_EqBinding.cfg", timeout=600)
+    rep.add_tlc(b1, "EqBinding (positional delivery / argument lookup by name)")
+    if b1["machinery_ok"] and b1["violation"]:
+        rep.note("design-level counterexample in EqBinding: %s" % b1["violation"])
+    b2 = run_tlc("EqBinding", "MC_EqBinding_neg.cfg", timeout=600)
+    if not (b2["violation"] and b2["violation"].get("name") == "DeliveredToDeclared"):
+        rep.machinery("negative control MC_EqBinding_neg did not violate DeliveredToDeclared", b2["out"][-800:])
+    models = list(new_system().models)
+    rep.extra["_table"] = table
+    chunks = [models[i::NCPU] for i in range(NCPU)]
+    res = run_tasks("vh.eqdrv:task", [dict(models=c, table=table, rounds=rounds) for c in chunks if c], nproc=NCPU, timeout=3000)
+    recs = []
+    for x in res:
+        if x["status"] == "ok":
+            recs += x["result"]
+        else:
+            rep.machinery("equation worker %s" % x["status"], x.get("error", "")[-1200:])
+    recs.sort(key=lambda r_: r_["model"])
+    missing_models = sorted(set(models) - {r_["model"] for r_ in recs})
+    if missing_models:
+        rep.machinery("models not probed: %s" % missing_models[:10])
+    traces = []
+    for k, rec in enumerate(recs):
+        ev = [dict(e="item", key=it["key"], group=it["group"], position=it["position"], delivered_to=it["delivered_to"], points=it["points"],
+                   agree=it["agree"], has_alts=it["has_alts"], equals_declared_of=it["equals_declared_of"], missing=bool(it["notes"]))
+              for it in rec["items"]]
+        ev.append(dict(e="model", model=rec["model"], problems=len(rec["problems"])))
+        traces.append(dict(meta=dict(tid=k + 1, sid=rec["model"]), ev=ev))
+    verdicts, tl = tracecheck.validate(traces, "Trace_EqBinding")
+    for t in tl:
+        rep.add_tlc(t, "Trace_EqBinding")
+    n_items = n_points = 0
+    partial = {}
+    for tr, rec in zip(traces, recs):
+        v = verdicts.get(tr["meta"]["tid"])
+        if v is None:
+            rep.machinery("trace of model %s not consumed" % rec["model"])
+            continue
+        rep.traces += 1
+        n_items += v["items"]
+        n_points += v["points"]
+        for it in rec["items"]:
+            rep.count()
+            if it["points"] > 0:
+                rep.nontriv(it["key"])
+        for cl in v["viol"]:
+            name, group, key = cl.split(":", 2)
+            it = next(i for i in rec["items"] if i["key"] == key)
+            rep.violation("%s:%s" % (name, key), "clause %s fails for %s (%s, position %d, delivered to %s): equal at %d of %d defined points%s%s"
+                          % (name, key, group, it["position"], it["delivered_to"], it["agree"], it["points"],
+                             "; the delivered numbers are those of %s" % it["equals_declared_of"] if it["equals_declared_of"] else "",
+                             "; " + "; ".join(it["notes"]) if it["notes"] else ""),
+                          replay=dict(kind="equation", model=rec["model"], item=it, rounds=rounds))
+        if rec["problems"]:
+            partial[rec["model"]] = rec["problems"][:3]
+    for m, pr in sorted(partial.items()):
+        rep.note("model %s only partly exercised: %s" % (m, pr))
+    rep.extra["equation_level"] = dict(models=len(recs), declared_items=n_items, defined_point_comparisons=n_points, rounds=rounds, devices_per_round=4,
+                                       comparisons_inside_conditions=sum(r_["conditions"] for r_ in recs),
+                                       comparisons_with_both_outcomes=sum(r_["conditions_both"] for r_ in recs),
+                                       one_sided_conditions=[k_ for r_ in recs for k_ in r_["one_sided"]][:20],
+                                       partly_exercised_models=sorted(partial))
+    if recs:
+        rep.sample(dict(model=recs[0]["model"], items=recs[0]["items"][:3]))
+
+
+DET_QUICK = ["GENROU", "ESST3A", "EXAC1", "REGCA1", "REECA1", "TGOV1", "Line", "PQ", "IEEEG1", "PVD1", "ESST1A", "Toggle"]
+
+
+def regeneration(rep, quick):
+    """regenerating from an unchanged model: recorded checksum is the model's; code identical or functionally identical"""
+    from ..common import new_system
+    table = rep.extra.pop("_table", None)
+    if table is None:
+        return
+    models = DET_QUICK if quick else list(new_system().models)
+    d = scratch_dir("cgt")
+    try:
+        tf = os.path.join(d, "table.json")
+        json.dump(table, open(tf, "w"))
+        parts = [models[i::4] for i in range(4)] if not quick else [models]
+        scs = [dict(kind="det", tid=i + 1, sid="regenerate[%d models]" % len(p), models=p, table_file=tf, rounds=min(len(table), 12)) for i, p in enumerate(parts) if p]
+        res = run_tasks("vh.codegendrv:task", scs, nproc=4, timeout=3600)
+    finally:
+        shutil.rmtree(d, ignore_errors=True)
+    traces = []
+    for sc, x in zip(scs, res):
+        rep.count()
+        if x["status"] != "ok" or x["result"].get("setup_error"):
+            rep.machinery("regeneration run failed: %s" % sc["sid"], (x.get("error") or x.get("result", {}).get("setup_error") or "")[-1200:])
+            continue
+        traces.append(x["result"])
+    verdicts, tl = tracecheck.validate(traces, "Trace_Codegen")
+    for t in tl:
+        rep.add_tlc(t, "Trace_Codegen (regeneration)")
+    for tr in traces:
+        v = verdicts.get(tr["meta"]["tid"])
+        if v is None:
+            rep.machinery("regeneration trace %s not consumed" % tr["meta"]["sid"])
+            continue
+        rep.traces += 1
+        rep.nontriv(tr["meta"]["sid"])
+        if tr.get("diff"):
+            rep.note("regenerated files not byte-identical (compared functionally): %s" % tr["diff"][:10])
+        for cl in v["viol"]:
+            rep.violation("%s:%s" % (cl, ",".join(tr.get("diff") or tr.get("missing") or ["md5"])[:80]),
+                          "clause %s fails for %s: differing %s missing %s items %s" % (cl, tr["meta"]["sid"], tr.get("diff"), tr.get("missing"), tr.get("bad_items")),
+                          replay=dict(kind="regeneration", record={k: v_ for k, v_ in tr.items() if k != "meta"}))
+    rep.extra["regenerated_models"] = len(models)
+
+
 def run(tier):
     rep = Report(PID, tier)
     quick = tier == "quick"
@@ -125,7 +250,13 @@ def run(tier):
         rep.extra["negative_control"] = "checksum not covering an edit violates NeverSilentlyStale, as it must"
     rep.phase("protocol sequences")
     protocol(rep, quick)
-    rep.rule = ("operation sequences over {edit equation / initialiser / iterative initialiser / service, prepare, System() with "
+    rep.phase("equations")
+    equations(rep, quick)
+    rep.phase("regeneration")
+    regeneration(rep, quick)
+    rep.rule = ("equation level: every declared residual / initialiser / iterative initialiser / service string of every shipped "
+                "model x lattice points (TLC-enumerated levels, 4 devices x rounds); non-trivial = item with at least one defined "
+                "point.  Protocol level: operation sequences over {edit equation / initialiser / iterative initialiser / service, prepare, System() with "
                 "and without automatic regeneration, corrupt, delete}: all of length <= 2, %s of length 3, a residue class of "
                 "length 5, one 20-step history; non-trivial = contains an edit, corruption or deletion"
                 % ("a seeded sample" if quick else "all"))
@@ -134,6 +265,24 @@ def run(tier):
 
 def replay(path):
     d = json.load(open(path))
+    if d["replay"].get("kind") == "regeneration":
+        print(json.dumps(d["replay"], indent=1)[:3000])
+        return 0
+    if d["replay"].get("kind") == "equation":
+        from .. import eqdrv
+        rep = Report(PID, "quick")
+        rounds = d["replay"]["rounds"]
+        dd = scratch_dir("eql")
+        try:
+            out = os.path.join(dd, "t.json")
+            run_tlc("Scen_EqLattice", "Scen_EqLattice.cfg", workers=1, timeout=900, env={"OUT": out, "ROUNDS": str(rounds)})
+            table = json.load(open(out))["table"]
+        finally:
+            shutil.rmtree(dd, ignore_errors=True)
+        rec = eqdrv.task(dict(models=[d["replay"]["model"]], table=table, rounds=rounds))[0]
+        it = [i for i in rec["items"] if i["key"] == d["replay"]["item"]["key"]]
+        print(json.dumps(it, indent=1))
+        return 1 if any(i["agree"] != i["points"] or i["notes"] for i in it) else 0
     sc = d["replay"]["scenario"]
     sc["tid"] = 1
     from .. import codegendrv
